@@ -170,6 +170,10 @@ def check(ctx):
     B.must_raise("G3", disp, "shift to a position the axis lacks, second of two axes", lambda: full_dispatch(P, "diff", "center", {AX: "left", AY: "inner"}, positions=["center", "left", "outer"], axnames=("AX", "AY"), axis_arg=[AX, AY]))
     B.must_raise("G3", disp, "default shift missing: axis with the centre position only", lambda: full_dispatch(P, "diff", "center", None, positions=["center"]))
     B.must_raise("G3", disp, "unknown position word as target", lambda: full_dispatch(P, "diff", "center", "middle"))
+    # a target word that happens to be falsy is an unknown word, not "no target given" (None alone means the default shift)
+    B.must_raise("G3", disp, "the empty string as target position", lambda: full_dispatch(P, "diff", "center", ""))
+    B.must_raise("G3", disp, "the empty string as target position of the second of two axes", lambda: full_dispatch(P, "diff", "center", {AX: "left", AY: ""}, axnames=("AX", "AY"), axis_arg=[AX, AY]))
+    B.must_raise("G3", cums, "cumsum to the empty string as target position", lambda: _run_cumsum(P, "center", ""))
     B.must_raise("G3", cums, "cumsum to a position the axis lacks", lambda: _run_cumsum_positions(P, "center", "outer", ["center", "left"]))
     B.must_raise("G3", cums, "cumsum to the same position", lambda: _run_cumsum(P, "left", "left"))
     # the impossible shift on the second of two axes: nothing computed for the first axis may stand in for it
